@@ -389,6 +389,7 @@ func enclaveLevels(ls []pcs.EnclaveTCBLevel) string {
 }
 
 type tiFacts struct {
+	raw         pcs.TCBInfo
 	ok          bool
 	coq         string
 	id, fmspc   string
@@ -402,6 +403,7 @@ func parseTCBInfo(raw []byte) (f tiFacts) {
 		f.coq = "None"
 		return
 	}
+	f.raw = ti
 	f.ok, f.id, f.fmspc, f.eval = true, ti.ID, ti.FMSPC, ti.TCBEvaluationDataNumber
 	is, _, it := parseTime(ti.IssueDate)
 	ns, _, nt := parseTime(ti.NextUpdate)
@@ -735,6 +737,7 @@ func evaluate(c CaseD) (res result) {
 	r := locate(raw)
 	var pckCerts []*x509.Certificate
 	var pckFmspc []byte
+	var pckInfo *pcs.PCKInfo
 	pckChain := false
 	var okQuoteSig, okQeSig, okBind, okTiSig, okQiSig bool
 	if r.ok {
@@ -771,7 +774,7 @@ func evaluate(c CaseD) (res result) {
 						pi, perr := qs.VerifyPCK(ts)
 						switch {
 						case perr == nil:
-							pckFmspc = pi.FMSPC
+							pckFmspc, pckInfo = pi.FMSPC, pi
 							var sv []int64
 							for _, x := range pi.TCBCompSVN {
 								sv = append(sv, int64(x))
@@ -898,6 +901,34 @@ func evaluate(c CaseD) (res result) {
 			f, err := hex.DecodeString(tif.fmspc)
 			if err != nil || !bytes.Equal(f, pckFmspc) {
 				v("accepted with TCB info of a foreign platform (FMSPC %s vs PCK %x)", tif.fmspc, pckFmspc)
+			}
+		}
+		// independent reference for the platform TCB level: first level not above the platform's SVNs
+		if tif.ok && pckInfo != nil {
+			status := pcs.TCBStatus(-1)
+			for _, l := range tif.raw.TCBLevels {
+				match := pckInfo.PCESVN >= l.TCB.PCESVN
+				for i := 0; i < 16; i++ {
+					match = match && pckInfo.TCBCompSVN[i] >= l.TCB.SGXComponents[i].SVN
+				}
+				if r.tee == 0x81 {
+					from := 0
+					if r.body[1] != 0 {
+						from = 2
+					}
+					for i := from; i < 16; i++ {
+						match = match && int32(r.body[i]) >= l.TCB.TDXComponents[i].SVN
+					}
+				}
+				if match {
+					status = l.Status
+					break
+				}
+			}
+			okStatus := status == pcs.StatusUpToDate || status == pcs.StatusSWHardeningNeeded ||
+				c.Env.Lax && (status == pcs.StatusOutOfDate || status == pcs.StatusConfigurationNeeded || status == pcs.StatusOutOfDateConfigurationNeeded)
+			if !okStatus {
+				v("accepted although the matched platform TCB level has status %d (%s), which is not allowed", int(status), status)
 			}
 		}
 		for _, cert := range append(append([]*x509.Certificate{}, pckCerts...), tcbCerts...) {
